@@ -1144,3 +1144,47 @@ def deep_field_roots(prog, body, operand, depth=0, _seen=None):
                 if r[1] < len(ops):
                     out |= deep_field_roots(prog, pb, ops[r[1]], depth + 1, _seen)
     return out
+
+
+def reach_tracking_bools(body, start, avoid=()):
+    """blocks reachable from `start`, following the constant bool a path has just assigned: `_r = const true; goto join; join: switchInt(_r)`
+    (the two exits of a spliced bool helper) continues only into the matching target.  Copies `_x = _r` carry the constant along."""
+    seen = set()
+    out = set()
+    st = [(start, ())]
+    while st:
+        bi, env = st.pop()
+        if (bi, env) in seen or len(seen) > 20000 or bi in avoid:
+            continue
+        seen.add((bi, env))
+        out.add(bi)
+        e = dict(env)
+        for s in body.blocks[bi]['s']:
+            if s['k'] != 'assign' or s['l'].get('p'):
+                continue
+            l = s['l']['l']
+            rv = s['r']
+            if rv['k'] == 'use' and 'k' in rv['o'] and isinstance(rv['o']['k'].get('v'), bool):
+                e[l] = rv['o']['k']['v']
+            elif rv['k'] == 'use' and ((rv['o'].get('c') or rv['o'].get('m') or {}).get('l') in e) and not (rv['o'].get('c') or rv['o'].get('m')).get('p'):
+                e[l] = e[(rv['o'].get('c') or rv['o'].get('m'))['l']]
+            elif rv['k'] == 'un' and rv.get('op') == 'Not' and ((rv['a'].get('c') or rv['a'].get('m') or {}).get('l') in e):
+                e[l] = not e[(rv['a'].get('c') or rv['a'].get('m'))['l']]
+            else:
+                e.pop(l, None)
+        t = body.term(bi)
+        if t['k'] == 'call' and not (t.get('d') or {}).get('p') and t.get('d'):
+            e.pop(t['d']['l'], None)
+        nxt = body.succ(bi)
+        if t['k'] == 'switch':
+            p = t['o'].get('c') or t['o'].get('m')
+            if p and not p.get('p') and p['l'] in e:
+                val = e[p['l']]
+                zero = [tb for v, tb in t['targets'] if str(v) == '0']
+                if zero:
+                    nxt = [t['else']] if val else [zero[0]]
+        env2 = tuple(sorted(e.items()))
+        for n in nxt:
+            if not body.blocks[n].get('cleanup'):
+                st.append((n, env2))
+    return out
